@@ -91,10 +91,11 @@ type Ctx struct {
 	NTerms int
 	True   *Term
 	False  *Term
+	exMemo map[uint64]*Term
 }
 
 func NewCtx() *Ctx {
-	c := &Ctx{tab: map[string]*Term{}, varIdx: map[string]*Term{}, Apps: map[string][]uint8{}}
+	c := &Ctx{tab: map[string]*Term{}, varIdx: map[string]*Term{}, Apps: map[string][]uint8{}, exMemo: map[uint64]*Term{}}
 	c.True = c.Const(1, 1)
 	c.False = c.Const(1, 0)
 	return c
@@ -466,8 +467,15 @@ func (c *Ctx) bitop(op Op, in []*Term) *Term {
 	if op == OAnd {
 		ident = m
 	}
-	// bit-slice when a concat or a non-identity constant is involved
-	if w > 1 && (hasConcat || cv != ident) {
+	// bit-slice when a concat or a mask-like constant is involved (and/or with few runs; xor only with all-ones)
+	sliceConst := false
+	if cv != ident {
+		var cc uint64
+		constCuts(cv, w, &cc)
+		runs := bits.OnesCount64(cc)
+		sliceConst = (op != OXor && runs <= 16) || runs == 0
+	}
+	if w > 1 && (hasConcat || sliceConst) {
 		var cuts uint64
 		for _, a := range args {
 			concatCuts(a, &cuts)
@@ -505,9 +513,7 @@ func (c *Ctx) bitop(op Op, in []*Term) *Term {
 		}
 	}
 	if cv != ident {
-		// width 1 with non-identity constant
-		switch op {
-		case OXor: // xor with 1
+		if op == OXor && cv == m { // xor with all ones
 			return c.Not(c.bitop(op, args))
 		}
 		args = append(args, c.Const(w, cv))
@@ -555,9 +561,108 @@ func (c *Ctx) bitop(op Op, in []*Term) *Term {
 			}
 		}
 	}
-	// known-bits absorption: and(x, y) where y known ones on all of x's unknown bits etc. is rare; skip.
 	if len(args) == 1 {
 		return args[0]
+	}
+	// width 1: or(and(S,l), and(S,!l)) = and(S) and absorption or(x, and(x,y)) = x (dually for and/or swapped);
+	// these keep path guards small when branches re-join
+	if w == 1 && (op == OOr || op == OAnd) && len(args) <= 24 {
+		inner := OAnd
+		if op == OAnd {
+			inner = OOr
+		}
+		lits := func(t *Term) []*Term {
+			if t.Op == inner {
+				return t.Args
+			}
+			return []*Term{t}
+		}
+		for i := 0; i < len(args); i++ {
+			for j := i + 1; j < len(args); j++ {
+				a, b := lits(args[i]), lits(args[j])
+				// absorption: one literal set contains the other
+				if sub, sup := a, b; len(a) <= len(b) || len(b) <= len(a) {
+					if len(sub) > len(sup) {
+						sub, sup = sup, sub
+					}
+					in := map[int32]bool{}
+					for _, t := range sup {
+						in[t.ID] = true
+					}
+					all := true
+					for _, t := range sub {
+						if !in[t.ID] {
+							all = false
+							break
+						}
+					}
+					if all {
+						keep := args[i]
+						if len(lits(args[j])) < len(lits(args[i])) {
+							keep = args[j]
+						}
+						rest := []*Term{keep}
+						for k, t := range args {
+							if k != i && k != j {
+								rest = append(rest, t)
+							}
+						}
+						return c.bitop(op, rest)
+					}
+				}
+				if len(a) != len(b) {
+					continue
+				}
+				// same literals except one complementary pair
+				inb := map[int32]bool{}
+				for _, t := range b {
+					inb[t.ID] = true
+				}
+				var diffA *Term
+				nd := 0
+				for _, t := range a {
+					if !inb[t.ID] {
+						diffA = t
+						nd++
+					}
+				}
+				if nd != 1 {
+					continue
+				}
+				ina := map[int32]bool{}
+				for _, t := range a {
+					ina[t.ID] = true
+				}
+				var diffB *Term
+				for _, t := range b {
+					if !ina[t.ID] {
+						diffB = t
+					}
+				}
+				if diffB == nil || !((diffA.Op == ONot && diffA.Args[0] == diffB) || (diffB.Op == ONot && diffB.Args[0] == diffA)) {
+					continue
+				}
+				var common []*Term
+				for _, t := range a {
+					if t != diffA {
+						common = append(common, t)
+					}
+				}
+				var merged *Term
+				if len(common) == 0 {
+					// or(l, !l) / and(l, !l) were handled above
+					continue
+				}
+				merged = c.bitop(inner, common)
+				rest := []*Term{merged}
+				for k, t := range args {
+					if k != i && k != j {
+						rest = append(rest, t)
+					}
+				}
+				return c.bitop(op, rest)
+			}
+		}
 	}
 	// boolean absorption for width 1: and(a, or(a, b)) is rare; skip.
 	return c.mk(op, w, 0, "", args...)
@@ -612,9 +717,20 @@ func (c *Ctx) Extract(hi, lo uint8, a *Term) *Term {
 	if w == a.W {
 		return a
 	}
-	switch a.Op {
-	case OConst:
+	if a.Op == OConst {
 		return c.Const(w, a.C>>lo)
+	}
+	key := uint64(a.ID)<<16 | uint64(hi)<<8 | uint64(lo)
+	if r, ok := c.exMemo[key]; ok {
+		return r
+	}
+	r := c.extract(hi, lo, w, a)
+	c.exMemo[key] = r
+	return r
+}
+
+func (c *Ctx) extract(hi, lo, w uint8, a *Term) *Term {
+	switch a.Op {
 	case OConcat:
 		var parts []*Term
 		pos := a.W
@@ -1306,7 +1422,11 @@ func (c *Ctx) Popcount(a *Term, w uint8) *Term {
 // Ctz is the count of trailing zeros (a.W when a == 0) as a term of width w.
 func (c *Ctx) Ctz(a *Term, w uint8) *Term {
 	res := c.Const(w, uint64(a.W))
-	for i := int(a.W) - 1; i >= 0; i-- {
+	top := int(a.W) - 1
+	if a.K1 != 0 {
+		top = bits.TrailingZeros64(a.K1) // bits above the lowest known one cannot matter
+	}
+	for i := top; i >= 0; i-- {
 		res = c.Ite(c.Bit(a, uint8(i)), c.Const(w, uint64(i)), res)
 	}
 	return res
@@ -1353,4 +1473,17 @@ func (c *Ctx) Mux(idx *Term, n int, elem func(i int) *Term) *Term {
 	}
 	// bits of idx above nb are ignored (out of range anyway)
 	return rec(nb-1, 0)
+}
+
+// OpHist counts the terms created so far by operator (debugging aid).
+func (c *Ctx) OpHist() map[string]int {
+	h := map[string]int{}
+	seen := map[*Term]bool{}
+	for _, t := range c.tab {
+		if !seen[t] {
+			seen[t] = true
+			h[opNames[t.Op]+fmt.Sprintf("/%d", t.W)]++
+		}
+	}
+	return h
 }
